@@ -182,7 +182,8 @@ func (w *World) checkJsonScheduling(P string, pull *ssa.Function, scope *pullSco
 		if ifi == nil {
 			continue
 		}
-		blocks := armBlocks(ifi)
+		av := scope.armView(ifi)
+		blocks := av.blocks
 		var popCall *ssa.Call
 		for _, c := range callsUnder(blocks) {
 			if staticCallee(c) == jr.pop {
@@ -190,11 +191,11 @@ func (w *World) checkJsonScheduling(P string, pull *ssa.Function, scope *pullSco
 			}
 		}
 		sets := setCalls(blocks, endField, true)
-		ok := popCall != nil && len(sets) == 1 && guardedByGetter(sets[0], keyField, true) && instrAfter(popCall, sets[0])
+		ok := popCall != nil && len(sets) == 1 && guardedByGetter(sets[0], keyField, true) && av.before(popCall, sets[0])
 		// the guard must be evaluated after the pop
 		if ok {
 			for _, a := range guardAtoms(sets[0].Block()) {
-				if gc, isC := a.V.(*ssa.Call); isC && jr.getter[staticCallee(gc)] == keyField && !instrAfter(popCall, gc) {
+				if gc, isC := a.V.(*ssa.Call); isC && jr.getter[staticCallee(gc)] == keyField && !av.before(popCall, gc) {
 					ok = false
 				}
 			}
@@ -229,7 +230,8 @@ func (w *World) checkJsonScheduling(P string, pull *ssa.Function, scope *pullSco
 		if ifi == nil {
 			continue
 		}
-		blocks := armBlocks(ifi)
+		av := scope.armView(ifi)
+		blocks := av.blocks
 		var pushCall *ssa.Call
 		for _, c := range callsUnder(blocks) {
 			if staticCallee(c) == jr.push {
@@ -261,7 +263,7 @@ func (w *World) checkJsonScheduling(P string, pull *ssa.Function, scope *pullSco
 			}
 		}
 		for _, c := range setCalls(blocks, keyField, true) {
-			if pushCall == nil || instrAfter(pushCall, c) {
+			if pushCall == nil || av.before(pushCall, c) {
 				continue
 			}
 			// guarded by current state == object constant
